@@ -167,8 +167,10 @@ impl Slot {
     pub fn attr(&self) -> u8 {
         self.raw[11]
     }
+    /// long-name fragment: the six defined attribute bits read exactly RO|HIDDEN|SYSTEM|VOLUME
+    /// (ATTR_LONG_NAME_MASK of the specification is 0x3F, not 0x0F)
     pub fn is_lfn(&self) -> bool {
-        self.raw[11] & 0x0F == 0x0F
+        self.raw[11] & 0x3F == 0x0F
     }
     pub fn is_label(&self) -> bool {
         !self.is_lfn() && self.raw[11] & 0x08 != 0
